@@ -27,8 +27,8 @@ let run (cases : case list) =
           | ["close"; id] ->
             let k = z_of_string id in
             st := fstep !st (FClose k); st := fstep !st (FClose (Z.add k (z_of_int 1000)));
-            Printf.sprintf "open=%d intact=1" (openn ())
-          | ["aread"; _] -> Printf.sprintf "open=%d intact=1" (openn ())
+            Printf.sprintf "open=%d intact=1 rooted=1" (openn ())
+          | ["aread"; _] -> Printf.sprintf "open=%d intact=1 rooted=1" (openn ())
           | ["gcprobe"; m] -> Printf.sprintf "read=1 write=%d wantwrite=%d early=0" (if m = "both" then 1 else 0) (if m = "both" then 1 else 0)
           | kind :: id :: how :: _ ->
             if List.mem how fails then Printf.sprintf "ok=0 open=%d" (openn ())
@@ -50,12 +50,13 @@ let run (cases : case list) =
            | ["census"] -> if Hashtbl.length o_live = 0 && openv <> 0 then fail i "3" op impl
            | ["close"; id] ->
              if kv_def t "intact" "1" <> "1" then fail i "2" op impl
+             else if kv_def t "rooted" "1" <> "1" then fail i "4" op impl
              else begin
                (match Hashtbl.find_opt o_live id with
                 | Some n -> Hashtbl.remove o_live id; if openv <> !prev_open - n then fail i "3" op impl
                 | None -> if openv <> !prev_open then fail i "2" op impl)      (* a repeated Close released something *)
              end
-           | ["aread"; _] -> if kv_def t "intact" "1" <> "1" then fail i "2" op impl
+           | ["aread"; _] -> if kv_def t "intact" "1" <> "1" then fail i "2" op impl else if kv_def t "rooted" "1" <> "1" then fail i "4" op impl
            | ["gcprobe"; _] ->
              if kv_def t "early" "" <> "0" || kv_def t "read" "" <> "1" || kv_def t "write" "" <> kv_def t "wantwrite" "" then fail i "4" op impl
            | kind :: id :: _ ->
